@@ -26,7 +26,9 @@ PROOF_TECH = 'Rocq (Coq 8.16) proof over an executable model + differential corr
 PROVED = {
  'C01': ('Theorems C01_message_total / C01_avps_total / C01_type_total / C01_loop_bound (coq/theories/Properties/C01.v): for every octet string and option set '
          'the Model decoder returns Val (Ok or non-empty Err) -- never Panic (incl. checked subtraction = debug overflow panic and release wrap), UB or OutOfFuel; '
-         'corollaries of the refinement m_decode = s_decode. The per-case time bound is covered by a watchdog on generated inputs only (partial).'),
+         'corollaries of the refinement m_decode = s_decode. C01_work_linear / C01_avps_work_linear / C01_type_work_linear: under a cost semantics of decoder programs '
+         '(one unit per reader operation, one per octet handed out by bytes()) the work is at most 3*|input|+12, so no input makes the decoder do super-linear work. '
+         'Wall-clock time of the compiled code is outside the model: a watchdog covers it on generated inputs only (that part is partial).'),
  'C02': ('Theorems C02_no_contract_violation and C02_program_parametric / C02_reader_parametric / C02_avps_parametric / C02_type_parametric: no run issues an '
          'out-of-contract reader call, and for every Reader implementation satisfying Conforms the decoder returns the same result and leaves the reader at the same '
          'suffix (one induction over decoder programs as a free monad over the Reader trait). reveal() builds its own SliceReader: covered by (a) only, see C13.'),
